@@ -83,6 +83,117 @@ def _always_returns(stmts):
     return False
 
 
+def _js_mutations(jf, name):
+    """sites that change the module-level object `name` or let it escape"""
+    MUT = {"push", "pop", "shift", "unshift", "splice", "sort", "reverse", "set", "delete", "clear", "add", "fill", "copyWithin"}
+    out = []
+
+    def root(e):
+        e = e.get("expression", e) if isinstance(e, dict) else e
+        while isinstance(e, dict) and e.get("type") in ("MemberExpression", "ParenthesisExpression"):
+            e = e.get("object") if e.get("type") == "MemberExpression" else e.get("expression")
+        return jsast.ident_name(e) if isinstance(e, dict) else None
+
+    for x in jsast.walk(jf.program):
+        t = x.get("type")
+        if t == "AssignmentExpression":
+            l = x["left"]
+            if l.get("type") == "MemberExpression" and root(l) == name:
+                out.append((x, "a property of it is assigned"))
+            elif jsast.ident_name(l) == name:
+                out.append((x, "it is reassigned"))
+        elif t == "UpdateExpression" and (x.get("argument") or {}).get("type") == "MemberExpression" and root(x["argument"]) == name:
+            out.append((x, "a property of it is updated"))
+        elif t == "UnaryExpression" and x.get("operator") == "delete" and root(x.get("argument") or {}) == name:
+            out.append((x, "a property of it is deleted"))
+        elif t == "CallExpression":
+            cal = x.get("callee") or {}
+            args = [a.get("expression", a) for a in (x.get("arguments") or []) if isinstance(a, dict)]
+            ch = jsast.member_chain(cal) or []
+            if ch[:1] == ["Object"] and ch[-1:] and ch[-1] in ("assign", "defineProperty", "defineProperties", "setPrototypeOf") and args and jsast.ident_name(args[0]) == name:
+                out.append((x, "Object.%s(%s, ..) writes into it" % (ch[-1], name)))
+            elif cal.get("type") == "MemberExpression" and jsast.ident_name(cal.get("object") or {}) == name and (cal.get("property") or {}).get("value") in MUT:
+                out.append((x, ".%s() changes it" % cal["property"]["value"]))
+    return out
+
+
+def _regex_used_statelessly(jf, name):
+    """every reference to the module-level regex is the argument of String.prototype.match /
+    matchAll / replace / replaceAll / split / search (which reset lastIndex before they start)"""
+    refs = 0
+    for x in jsast.walk(jf.program):
+        if x.get("type") == "CallExpression":
+            cal = x.get("callee") or {}
+            args = x.get("arguments") or []
+            for a in args:
+                a = a.get("expression", a) if isinstance(a, dict) else a
+                if jsast.ident_name(a) == name:
+                    prop = cal.get("property") or {}
+                    pn = prop.get("value") if prop.get("type") == "Identifier" else None
+                    if cal.get("type") == "MemberExpression" and pn in ("match", "matchAll", "replace", "replaceAll", "split", "search"):
+                        refs += 1
+                    else:
+                        return False
+        elif x.get("type") == "MemberExpression" and jsast.ident_name(x.get("object") or {}) == name:
+            return False  # REGEX.exec / .test / .lastIndex
+    total = sum(1 for x in jsast.walk(jf.program) if x.get("type") == "Identifier" and x.get("value") == name)
+    return refs > 0 and total == refs + 1  # the declaration itself plus the stateless uses
+
+
+def rule_js_state(check, only_files=None):
+    """JS-STATE (C11: the source-map / stack-trace modules; C16: all of the glue): what the JS glue keeps at
+    module level between calls"""
+    prog = check.prog
+    c = check
+    main = jsast.JsFile(prog.js, "main.js")
+    sm = jsast.JsFile(prog.js, "js/source-map/index.js")
+    st = jsast.JsFile(prog.js, "js/stack-trace/index.js")
+    R5 = "JS-STATE"
+    check.rule(R5, "module-level mutable state of the JS glue is exactly the reviewed set (the two source-map caches and the lazily loaded native class); in particular no regular expression with the g/y flag lives outside the function that uses it (its lastIndex would carry over from one call site to the next)")
+    REVIEWED_STATE = {
+        ("js/source-map/index.js", "rewrittenSourceMapsCache"): "the cache of rewritten source maps (CACHE-DISCIPLINE governs its writes)",
+        ("js/source-map/index.js", "originalSourceMapsCache"): "LRU cache of original source maps read from disk",
+        ("main.js", "NativeRewriter"): "native class, assigned once by getRewriter()",
+    }
+
+    def state(c):
+        n = 0
+        for jf in (main, sm, st):
+            if only_files and jf.name not in only_files:
+                continue
+            for stmt in jf.body:
+                if stmt.get("type") != "VariableDeclaration":
+                    continue
+                for d in stmt["declarations"]:
+                    name = jsast.ident_name(d["id"]) if d["id"].get("type") == "Identifier" else None
+                    init = d.get("init")
+                    n += 1
+                    kind = None
+                    if init is None:
+                        kind = "uninitialised binding"
+                    elif init.get("type") == "RegExpLiteral":
+                        if any(f in (init.get("flags") or "") for f in "gy") and not _regex_used_statelessly(jf, name):
+                            c.bad(R5, "%s/stateful-regex/%s" % (R5, name), jf.loc(d), "module-level regular expression /%s/%s keeps lastIndex between calls: every other match starts in the middle of the string" % (init.get("pattern", "")[:30], init.get("flags")))
+                            continue
+                    elif init.get("type") in ("NewExpression", "ObjectExpression", "ArrayExpression"):
+                        kind = "mutable object"
+                    if kind:
+                        why = REVIEWED_STATE.get((jf.name, name))
+                        muts = _js_mutations(jf, name) if kind == "mutable object" and not why else []
+                        if kind == "mutable object" and not why and not muts:
+                            c.ok(R5, "%s/%s/%s" % (R5, jf.name, name), jf.loc(d), "module-level table that is only read (no assignment into it, no Object.assign target, no mutating method)")
+                            continue
+                        c.expect(bool(why), R5, "%s/%s/%s" % (R5, jf.name, name), jf.loc(d), "reviewed module state: %s" % why, "unreviewed module-level %s `%s` in %s carries state from one call (one rewriter) to the next%s" % (kind, name, jf.name, (": " + muts[0][1] + " at " + jf.loc(muts[0][0])) if muts else ""))
+            # regexes with g/y anywhere must be literals evaluated where they are used (fresh per call)
+            for x in jsast.walk(jf.program):
+                if x.get("type") == "RegExpLiteral" and any(f in (x.get("flags") or "") for f in "gy"):
+                    pass
+        c.floor(R5, "module-level bindings inspected", n, 10 if not only_files else 6)
+
+
+    state(check)
+
+
 def run(check):
     prog = check.prog
     main = jsast.JsFile(prog.js, "main.js")
@@ -96,11 +207,11 @@ def run(check):
     def wr(c):
         pj = prog.fn("rewriter::print_js")
         text = None
-        for n, pieces in fmtargs.formats_in(pj):
+        for n, pieces in fmtargs.text_assemblies(prog, pj):
             if any(k == "lit" and "base64" in v for k, v in pieces):
                 t = ""
                 for i, (k, v) in enumerate(pieces[1:-1]):
-                    t += v if k == "lit" else (prog.const_str("rewriter::SOURCE_MAP_URL") if (hir.def_path_of(v) or "").endswith("SOURCE_MAP_URL") else "<?>")
+                    t += v if k == "lit" else "<?>"
                 text = t
         js_start = sm.const_string("SOURCE_MAP_INLINE_LINE_START")
         c.expect(text is not None and text.lstrip("\n") == js_start, R, R + "/trailer", "js/source-map/index.js", "reader %r == writer %r" % (js_start, text), "Rust writes trailer %r but the JS reader looks for %r" % (text, js_start))
@@ -324,65 +435,12 @@ def run(check):
 
     check.guarded(R4, stack)
 
-    def _regex_used_statelessly(jf, name):
-        """every reference to the module-level regex is the argument of String.prototype.match /
-        matchAll / replace / replaceAll / split / search (which reset lastIndex before they start)"""
-        refs = 0
-        for x in jsast.walk(jf.program):
-            if x.get("type") == "CallExpression":
-                cal = x.get("callee") or {}
-                args = x.get("arguments") or []
-                for a in args:
-                    a = a.get("expression", a) if isinstance(a, dict) else a
-                    if jsast.ident_name(a) == name:
-                        prop = cal.get("property") or {}
-                        pn = prop.get("value") if prop.get("type") == "Identifier" else None
-                        if cal.get("type") == "MemberExpression" and pn in ("match", "matchAll", "replace", "replaceAll", "split", "search"):
-                            refs += 1
-                        else:
-                            return False
-            elif x.get("type") == "MemberExpression" and jsast.ident_name(x.get("object") or {}) == name:
-                return False  # REGEX.exec / .test / .lastIndex
-        total = sum(1 for x in jsast.walk(jf.program) if x.get("type") == "Identifier" and x.get("value") == name)
-        return refs > 0 and total == refs + 1  # the declaration itself plus the stateless uses
-
-    R5 = "JS-STATE"
-    check.rule(R5, "module-level mutable state of the JS glue is exactly the reviewed set (the two source-map caches and the lazily loaded native class); in particular no regular expression with the g/y flag lives outside the function that uses it (its lastIndex would carry over from one call site to the next)")
-    REVIEWED_STATE = {
-        ("js/source-map/index.js", "rewrittenSourceMapsCache"): "the cache of rewritten source maps (CACHE-DISCIPLINE governs its writes)",
-        ("js/source-map/index.js", "originalSourceMapsCache"): "LRU cache of original source maps read from disk",
-        ("main.js", "NativeRewriter"): "native class, assigned once by getRewriter()",
-    }
-
-    def state(c):
-        n = 0
-        for jf in (main, sm, st):
-            for stmt in jf.body:
-                if stmt.get("type") != "VariableDeclaration":
-                    continue
-                for d in stmt["declarations"]:
-                    name = jsast.ident_name(d["id"]) if d["id"].get("type") == "Identifier" else None
-                    init = d.get("init")
-                    n += 1
-                    kind = None
-                    if init is None:
-                        kind = "uninitialised binding"
-                    elif init.get("type") == "RegExpLiteral":
-                        if any(f in (init.get("flags") or "") for f in "gy") and not _regex_used_statelessly(jf, name):
-                            c.bad(R5, "%s/stateful-regex/%s" % (R5, name), jf.loc(d), "module-level regular expression /%s/%s keeps lastIndex between calls: every other match starts in the middle of the string" % (init.get("pattern", "")[:30], init.get("flags")))
-                            continue
-                    elif init.get("type") in ("NewExpression", "ObjectExpression", "ArrayExpression"):
-                        kind = "mutable object"
-                    if kind:
-                        why = REVIEWED_STATE.get((jf.name, name))
-                        c.expect(bool(why), R5, "%s/%s/%s" % (R5, jf.name, name), jf.loc(d), "reviewed module state: %s" % why, "unreviewed module-level %s `%s` in %s can carry state from one call to the next" % (kind, name, jf.name))
-            # regexes with g/y anywhere must be literals evaluated where they are used (fresh per call)
-            for x in jsast.walk(jf.program):
-                if x.get("type") == "RegExpLiteral" and any(f in (x.get("flags") or "") for f in "gy"):
-                    pass
-        c.floor(R5, "module-level bindings inspected", n, 10)
-
-    check.guarded(R5, state)
+    check.guarded("JS-STATE", lambda c: rule_js_state(c, ("js/source-map/index.js", "js/stack-trace/index.js")))
+    # "through chained maps: the pre-transpilation file and line" - the map the lookups read is the one the
+    # native side chained with the original map *of this file*: a compiler shared between calls keeps the
+    # sourceMappingURL comments of earlier files and chains with a foreign map
+    from . import c16 as _c16
+    check.guarded("COMPILER-SCOPE", _c16.rule_compiler_of_this_call)
 
     R6 = "JS-GUARDS"
     check.rule(R6, "the sites of the JS glue that decide whether and how a position is translated are reached exactly under their documented conditions (propositional entailment in both directions between the structural path conditions, through guard clauses, conditional expressions and local helpers, and the gate): inline map decoded iff the last line of the trimmed content starts with the inline marker; referenced file read iff it starts with the plain marker only and names a url; SourceMap built iff a raw map was obtained; findEntry iff a map is given; original-map cache loaded / filled / consulted per its miss protocol; an already wrapped handler returned as is (mark truthy); the user's handler called iff present; a stack line translated iff it is a frame line with a call site (eval frames: iff their origin parses), using line index - first frame index; the replaced text is the looked-up position; the package's Rewriter is the caching class")
